@@ -57,13 +57,19 @@ class PmfPredict(NdContract):
                   ForAll([k_], Implies(And(0 <= k_, k_ < K), And(P0(k_) >= 0, P1(k_) >= 0, P0(k_) + P1(k_) == 1, PIG(k_) >= 0, PIG(k_) <= 1,
                                                                    PC(k_) >= 0, PC(k_) <= 1)), patterns=[P0(k_)]))
         st.env.update({"self": Obj("InterpolatedThresholder", {"interpolation_dict": Abstract("idict"), "estimator_": Abstract("est"),
-                                                               "_predict_method": "predict"}),
+                                                               "estimator": Abstract("constructor_estimator"), "prefit": Abstract("prefit"),
+                                                               "_predict_method": "predict", "predict_method": Abstract("constructor_predict_method")}),
                        "X": Abstract("X"), "sensitive_features": Abstract("raw_sf")})
 
     def on_call(self, eng, st, node, name, recv, args, kwargs):
         if name.endswith("check_is_fitted"):
             return None
         if name == "_get_soft_predictions":
+            # the score is the FITTED estimator's (estimator_: with prefit=False a clone trained by fit, not the constructor argument), on the query rows,
+            # by the resolved predict method
+            f = st.env["self"].fields
+            ok = len(args) == 3 and not kwargs and args[0] is f["estimator_"] and args[1] is st.env["X"] and args[2] is f["_predict_method"]
+            eng.oblige(st, "scores_are_the_fitted_estimators_on_the_query_rows", BoolVal(bool(ok)), "wiring", node)
             return Abstract("soft")
         if name == "numpy.array" and args and isinstance(args[0], Abstract) and args[0].tag == "soft":
             return Nd("base_predictions", (n,), "ndarray", "ERASED", cell=lambda i: SCORE(i))
